@@ -1,6 +1,7 @@
 package props
 
 import (
+	"sync"
 	"crypto/md5"
 	"crypto/sha256"
 	"crypto/sha512"
@@ -78,6 +79,21 @@ func init() {
 			}
 			for _, hn := range []string{"sha256", "md5"} {
 				if hn == "sha256" {
+					// two clients started at the same time, each with its own SecureConfig:
+					// a genuine binary, and a same-length tampered copy under the genuine checksum
+					np := 40
+					if tier == "thorough" {
+						np = 3000
+					}
+					for v := 0; v < np; v++ {
+						sp0 := sp("C13", fmt.Sprintf("parallel/%d", v), seed+uint64(v+1)*7919, P("hash", hn, "parallel", "1", "size", []string{"100", "5000", "70000"}[v%3]))
+						sp0.HotPermille, sp0.DelayClass, sp0.Focus = 200, "tiny", "SecureConfig.Check"
+						sp0.Wake = []int{0, 300, 900}[v%3]
+						if v%2 == 1 {
+							sp0.Params["fsfault"] = "short:1000"
+						}
+						out = append(out, sp0)
+					}
 					// WHICH file is checked: relative command paths with cmd.Dir, symbolic links, ".."
 					for _, lay := range c13Layouts {
 						out = append(out, sp("C13", "layout/"+lay, seed, P("hash", hn, "layout", lay)))
@@ -211,7 +227,64 @@ func runC13Layout(r *h.Run) {
 	r.DoNoHang("Kill", 120*time.Second, ctx, func() (any, error) { cl.Kill(); return nil, nil })
 }
 
+// runC13Parallel: overlapping checks must not influence each other.
+func runC13Parallel(r *h.Run) {
+	w := r.W
+	size := r.Spec.PI("size", 100)
+	ctx := "parallel-starts"
+	genuine := make([]byte, size)
+	for i := range genuine {
+		genuine[i] = byte(k.H(r.Spec.Seed, "content", i))
+	}
+	tampered := append([]byte(nil), genuine...)
+	for i := range tampered {
+		tampered[i] ^= 0x5a
+	}
+	sum := sha256.Sum256(genuine)
+	mk := func(path, name string, data []byte) *plugin.Client {
+		c := h.Conf{Proto: "netrpc", Path: path, Name: name}
+		r.InstallPlugin(&c)
+		nd := w.NodeAt(path)
+		nd.Data = data
+		if fsf := r.Spec.P("fsfault", ""); strings.HasPrefix(fsf, "short:") {
+			fmt.Sscanf(fsf, "short:%d", &nd.ShortRead)
+		}
+		cfg := r.ClientConfig(c)
+		cfg.Cmd = simexec.Command(path)
+		cfg.Cmd.SimName = name
+		cfg.SecureConfig = &plugin.SecureConfig{Checksum: append([]byte(nil), sum[:]...), Hash: sha256.New()}
+		return plugin.NewClient(cfg)
+	}
+	good := mk("/bin/genuine", "plugin", genuine)
+	bad := mk("/bin/tampered", "tampered", tampered)
+	var wg sync.WaitGroup
+	var og, ob h.Outcome
+	wg.Add(2)
+	go k.Trap(func() { defer wg.Done(); og = r.Do("Start[genuine]", 90*time.Second, func() (any, error) { return good.Start() }) })
+	go k.Trap(func() { defer wg.Done(); ob = r.Do("Start[tampered]", 90*time.Second, func() (any, error) { return bad.Start() }) })
+	wg.Wait()
+	if og.Hung || ob.Hung {
+		r.Violate("hang", "op=Start "+ctx, r.HostStacks("goplugin"))
+		return
+	}
+	if w.ProcByName("tampered") != nil || ob.Err == nil {
+		r.Violate("ran-unverified-binary", ctx, fmt.Sprintf("a tampered copy was executed under the genuine checksum while the genuine binary was being checked at the same time (Start: %v)", ob.Err))
+	} else if !errors.Is(ob.Err, plugin.ErrChecksumsDoNotMatch) {
+		r.Violate("wrong-error", ctx, fmt.Sprintf("want %v, got %v", plugin.ErrChecksumsDoNotMatch, ob.Err))
+	}
+	if w.ProcByName("plugin") == nil || og.Err != nil {
+		r.Violate("refused-verified-binary", ctx, fmt.Sprintf("the genuine binary was refused while another check ran at the same time: %v", og.Err))
+	}
+	w.Probe("expect.launch")
+	w.Probe("expect.refuse")
+	r.DoNoHang("Kill", 120*time.Second, ctx, func() (any, error) { good.Kill(); bad.Kill(); return nil, nil })
+}
+
 func runC13(r *h.Run) {
+	if r.Spec.P("parallel", "") != "" {
+		runC13Parallel(r)
+		return
+	}
 	if r.Spec.P("layout", "") != "" {
 		runC13Layout(r)
 		return
